@@ -82,6 +82,24 @@ def enum_cases():
             for z in L:
                 yield spec, {"op": "mul", "args": [sm, z]}
                 yield spec, {"op": "mul", "args": [z, sm]}
+    # numbered fermions (as strings `f_10` < `f_2` < `f_9`): a pair converted in one go, combined with a third leaf converted on its own
+    spec = [('f', 'f_10'), ('f', 'f_2'), ('f', 'f_9')]; L = leaves(3); G = [x for x in L if x["op"] == "gen"]
+    for x, y in itertools.permutations(G, 2):
+        if x["mode"] == y["mode"]: continue
+        pair = {"op": "whole", "arg": {"op": "mul", "args": [x, y]}}
+        for z in L:
+            if z["op"] == "gen" and z["mode"] in (x["mode"], y["mode"]) and (x["mode"] + y["mode"] + z["mode"]) % 2: continue     # (thin out)
+            yield spec, {"op": "mul", "args": [pair, z]}
+            yield spec, {"op": "add", "args": [z, pair]}
+    # a term that vanishes identically (n_v v = 0 = v† n_v for a fermion or a spin v) next to terms in other modes, converted in one go:
+    # the mode v is still a mode of the expression
+    for spec in ([('f', 'c'), ('f', 'd')], [('s', 's'), ('f', 'c')], [('b', 'a'), ('f', 'c')], [('b', 'a'), ('s', 's')]):
+        for v in range(2):
+            if spec[v][0] not in "fs": continue
+            for x in leaves(2):
+                if x["mode"] == v: continue
+                yield spec, {"op": "whole", "arg": {"op": "add", "args": [x, {"op": "mul", "args": [{"op": "num", "mode": v}, {"op": "gen", "mode": v, "cr": False}]}]}}
+                yield spec, {"op": "whole", "arg": {"op": "add", "args": [{"op": "mul", "args": [{"op": "gen", "mode": v, "cr": True}, {"op": "num", "mode": v}]}, x]}}
     # functions of a number operator between generators, every kind, on a boson and on a ladder mode (whose numbers are negative too)
     for spec in ([('b', 'a')], [('l', 'a')]):
         L = leaves(1)
@@ -90,27 +108,64 @@ def enum_cases():
                 for rw in L[:2]:
                     yield spec, {"op": "mul", "args": [lw, {"op": "fnum", "mode": 0, "kind": kind}, rw]}
 
-def build(e, ops):
-    """build with the real NOF arithmetic, mirroring the AST association"""
+def to_sympy(e, ops):
+    """the expression as a SymPy expression (products keep their order: the operators do not commute)"""
     op = e["op"]
-    if op == "gen": return NOF.from_expr(Dagger(ops[e["mode"]]) if e["cr"] else ops[e["mode"]], ops)
-    if op == "num": return NOF.from_expr(NumberOperator(ops[e["mode"]]), ops)
-    if op == "fnum": return NOF.from_expr(fnum_expr(e["kind"], NumberOperator(ops[e["mode"]])), ops)
+    if op == "gen": return Dagger(ops[e["mode"]]) if e["cr"] else ops[e["mode"]]
+    if op == "num": return NumberOperator(ops[e["mode"]])
+    if op == "fnum": return fnum_expr(e["kind"], NumberOperator(ops[e["mode"]]))
+    if op == "const":
+        re = e["val"].split(",")[0]; a, b = re.split("/"); return sympy.Rational(int(a), int(b))
+    if op == "mul": return sympy.Mul(*[to_sympy(a, ops) for a in e["args"]])
+    if op == "add": return sympy.Add(*[to_sympy(a, ops) for a in e["args"]])
+    if op == "adj": return Dagger(to_sympy(e["arg"], ops))
+    if op == "pow": return to_sympy(e["base"], ops) ** sympy.Integer(e["exp"])
+    raise ValueError(op)
+
+def strip(e):
+    """the expression without the markers "whole" (a sub-expression handed to `from_expr` as one SymPy expression)"""
+    if isinstance(e, dict):
+        if e.get("op") == "whole": return strip(e["arg"])
+        return {k: strip(v) for k, v in e.items()}
+    if isinstance(e, list): return [strip(v) for v in e]
+    return e
+
+def wrap_some(e, rnd, top=True):
+    """mark some composite sub-expressions (not the whole expression, none with an Abs leaf or a cancelling argument) as converted in one go"""
+    if not isinstance(e, dict) or e["op"] in ("gen", "num", "fnum", "const", "invc"): return e
+    txt = json.dumps(e)
+    if not top and rnd.random() < 0.5 and not any(t in txt for t in ('"abs"', '"abs0"', '"invc"')): return {"op": "whole", "arg": e}
+    out = dict(e)
+    for k in ("args", "arg", "base"):
+        if k in out: out[k] = [wrap_some(a, rnd, False) for a in out[k]] if k == "args" else wrap_some(out[k], rnd, False)
+    return out
+
+def build(e, ops, how="full"):
+    """build with the real NOF arithmetic, mirroring the AST association.  how = "full": every leaf is converted with the full list of operators;
+    "auto": every leaf without a list (the operators are found in the leaf, the arithmetic has to merge the lists of its operands);
+    "whole": the whole expression is handed to `from_expr` as one SymPy expression, without a list"""
+    if how == "whole": return NOF.from_expr(to_sympy(strip(e), ops))
+    lst = (ops,) if how == "full" else ()
+    op = e["op"]
+    if op == "whole": return NOF.from_expr(to_sympy(strip(e["arg"]), ops))
+    if op == "gen": return NOF.from_expr(Dagger(ops[e["mode"]]) if e["cr"] else ops[e["mode"]], *lst)
+    if op == "num": return NOF.from_expr(NumberOperator(ops[e["mode"]]), *lst)
+    if op == "fnum": return NOF.from_expr(fnum_expr(e["kind"], NumberOperator(ops[e["mode"]])), *lst)
     if op == "invc":
-        x = build(e["arg"], ops); y = (x + NOF.from_expr(NumberOperator(ops[e["mode"]]) + sympy.Rational(1, 2), ops)) - x
+        x = build(e["arg"], ops, how); y = (x + NOF.from_expr(NumberOperator(ops[e["mode"]]) + sympy.Rational(1, 2), *lst)) - x
         return y ** sympy.Integer(-1)
     if op == "const":
-        re = e["val"].split(",")[0]; a, b = re.split("/"); return NOF.from_expr(sympy.Rational(int(a), int(b)), ops)
+        re = e["val"].split(",")[0]; a, b = re.split("/"); return NOF.from_expr(sympy.Rational(int(a), int(b)), *lst)
     if op == "mul":
-        fs = [build(a, ops) for a in e["args"]]; r = fs[0]
+        fs = [build(a, ops, how) for a in e["args"]]; r = fs[0]
         for f in fs[1:]: r = r * f
         return r
     if op == "add":
-        fs = [build(a, ops) for a in e["args"]]; r = fs[0]
+        fs = [build(a, ops, how) for a in e["args"]]; r = fs[0]
         for f in fs[1:]: r = r + f
         return r
-    if op == "adj": return build(e["arg"], ops).adjoint()
-    if op == "pow": return build(e["base"], ops) ** sympy.Integer(e["exp"])
+    if op == "adj": return build(e["arg"], ops, how).adjoint()
+    if op == "pow": return build(e["base"], ops, how) ** sympy.Integer(e["exp"])
     raise ValueError(op)
 
 def oracle(e, modes, vec):
@@ -171,7 +226,9 @@ def main(seed, ncases, driver, out):
                                [('l', 'a')], [('s', 's'), ('f', 'c')], [('b', 'a'), ('b', 'b')], [('s', 's'), ('s', 't')],
                                [('l', 'p'), ('b', 'a'), ('f', 'c'), ('f', 'd')], [('b', 'a'), ('s', 's')],
                                # modes of different kinds that carry the same label (a phonon b_k and an electron c_k, a cavity q and a qubit q)
-                               [('b', 'k'), ('f', 'k')], [('b', 'q'), ('s', 'q')], [('l', 'a'), ('b', 'a'), ('f', 'a')], [('s', 'k'), ('f', 'k')]])
+                               [('b', 'k'), ('f', 'k')], [('b', 'q'), ('s', 'q')], [('l', 'a'), ('b', 'a'), ('f', 'a')], [('s', 'k'), ('f', 'k')],
+                               # numbered modes: as strings `f_10` comes before `f_2` (the order of the operators of a form is by name, as a string)
+                               [('f', 'f_2'), ('f', 'f_10')], [('f', 'f_10'), ('f', 'f_2'), ('f', 'f_9')], [('b', 'b_3'), ('f', 'f_2'), ('f', 'f_11')]])
             spec = sorted(spec, key=lambda m: (ORDER[m[0]], m[1]))
             yield spec, (gen_word_pair(rnd, len(spec)) if rnd.random() < 0.5 else gen_expr(rnd, len(spec), 3)), "random"
     for c, (spec, e, stratum) in enumerate(case_stream()):
@@ -180,6 +237,10 @@ def main(seed, ncases, driver, out):
         ph = [_number_operator_to_placeholder(NumberOperator(o)) for o in ops]
         ranges = [range(0, 4) if m[0] == 'b' else (range(-2, 3) if m[0] == 'l' else range(0, 2)) for m in spec]
         states = list(itertools.product(*ranges))
+        marked = '"whole"' in json.dumps(e)
+        if not marked and stratum == "random" and c % 4 == 3:
+            e = wrap_some(e, case_rnd(seed, 7919 * c + 13)); marked = '"whole"' in json.dumps(e)
+        e_build = e; e = strip(e)
         case = {"kinds": [m[0] for m in spec], "expr": e}
         key = stratum + ":" + "".join(m[0] for m in spec); dist[key] = dist.get(key, 0) + 1
         def to_model(x):
@@ -197,8 +258,13 @@ def main(seed, ncases, driver, out):
         evals += len(states)
         if any(orc): distinct.add(json.dumps(case, sort_keys=True))
         if len(samples) < 2: samples.append(case)
+        # how the forms get their list of operators: handed over, found leaf by leaf and merged by the arithmetic, or found in the whole expression
+        how = "full" if '"invc"' in json.dumps(e) else ["full", "auto", "whole"][c % 3]
+        if marked: how = "auto"; case["converted_in_one_go"] = e_build; dist["some sub-expressions converted in one go"] = dist.get("some sub-expressions converted in one go", 0) + 1
+        if how == "whole" and ('"abs"' in json.dumps(e) or '"abs0"' in json.dumps(e)): how = "auto"      # (SymPy takes Abs(N) for a commuting factor and moves it: not the expression any more)
+        dist["operators: " + how] = dist.get("operators: " + how, 0) + 1; case["operators"] = how
         try:
-            x = build(e, ops)
+            x = build(e_build, ops, how)
         except ValueError as ex:
             if '"invc"' in json.dumps(case):      # refusing a function whose argument conserves numbers only after cancellation is allowed; a wrong value is not
                 dist["refused: function of a cancelling argument"] = dist.get("refused: function of a cancelling argument", 0) + 1; continue
